@@ -301,7 +301,7 @@ PROPS = {
         "gen": ["consts", "lockfacts"],
         "modes": [{"name": "raceload", "harness": "raceload", "modelcheck": None, "race": True, "timeout": {"quick": 600, "thorough": 2400}}],
         "rule": "rounds of concurrent workloads in the -race build of the harness: 2-4 connections x 3-6 client goroutines sharing one Clnt, each goroutine working on its own fids (create/write/read, stat by path, directory read, remove, wstat, multi-name walks; every path helper walks from the shared root fid), reads flushed while outstanding, a Tversion at the start of every session, further connections mounted and dropped (quiescent) while the others are busy; alternately against Ufs on a scratch tree (unix socket) and a scripted in-memory implementation answering from other goroutines (in-process pipes), with stateless random delays at every schedule point of the library. After every round the race detector log is read; a report whose racing access (first frame outside the Go runtime) lies in /repo is a failing case. One case = one round.",
-        "level_text": "Coq theorems (Props/C19.v): (1) every read and write of a mutex-protected field found by the translator in the CURRENT source (Conn.reqs/fidpool/counters, SrvReq.status, tag-group and flush links, SrvFid.refcount, Srv.conns, Clnt.reqfirst/reqlast/err, Req links, osUsers tables) is made with the owning mutex held, or on an object not yet shared, or is one of the listed ordered exceptions; no call into the implementation and no channel operation is made under a mutex (compliance evaluated by the kernel over all ~675 access facts; non-vacuity: every protected field is written under its lock somewhere); (2) in an abstract happens-before semantics of goroutines, mutexes, go statements and shared variables, for EVERY well-formed trace (any number of goroutines, any interleaving) accesses to a variable all made under one common mutex are ordered by happens-before, and a trace whose variables are each guarded or confined has no data race. The remaining (exempt) state - per-fid fields, request fields handed over by go/channel, Msize/Dotu - rests on the workload hypothesis of the property and is exercised under the Go race detector.",
+        "level_text": "Coq theorems (Props/C19.v): (1) every read and write of a mutex-protected field found by the translator in the CURRENT source (Conn.reqs/fidpool/counters, SrvReq.status, tag-group and flush links, SrvFid.refcount, Srv.conns, Clnt.reqfirst/reqlast/err, Req links, osUsers tables) is made with the owning mutex held, or on an object not yet shared, or is one of the listed ordered exceptions; no call into the implementation and no channel operation is made under a mutex (compliance evaluated by the kernel over all ~900 access and call facts; non-vacuity: every protected field is written under its lock somewhere); the walk handlers of the framework and of Ufs never write their source fid, directly or through a method that writes its receiver without the receiver's mutex (the property's 'walks may share a fid' exception); (2) in an abstract happens-before semantics of goroutines, mutexes, go statements and shared variables, for EVERY well-formed trace (any number of goroutines, any interleaving) accesses to a variable all made under one common mutex are ordered by happens-before, and a trace whose variables are each guarded or confined has no data race. The remaining (exempt) state - per-fid fields, request fields handed over by go/channel, Msize/Dotu - rests on the workload hypothesis of the property and is exercised under the Go race detector.",
         "level_note": "Partial: the theorem covers the mutex-protected state; exempt fields (per-fid state under the different-fids hypothesis, hand-off by go statement and channel, confinement) are covered only by the race-detector workload, which samples schedules. The translator's lockset tracking (syntactic, intersection at joins, closures analysed with an empty lockset) is trusted; the link from 'site holds the mutex' to guarded_by in the trace semantics is by construction of the translator, not proved. The scripted implementation is a conforming one: it cancels (req.Flush()) only requests it was handed and has not answered. Trusted: Coq kernel; Go race detector. Print Assumptions: closed under the global context.",
         "assumptions": ["requests concurrently outstanding on a connection operate on different fids (walks from a shared fid excepted)", "the file-server implementation cancels only requests it was handed and has not answered, and does not answer a request it cancelled", "Go memory model: mutex unlock/lock, go statement and channel send/receive are happens-before edges"],
     },
